@@ -42,6 +42,35 @@ def work_zoo(chunk, st):
     st.sample({'zoo_peers': list(chunk[:3])}, cap=3)
 
 
+def work_multi_skip(chunk, st):
+    # several targets in one invocation: the per-target bounds hold for each of them, with the rate check skipped and (one worker) with it on
+    HK = runner.M['hostkeytest'].HostKeyTest
+    for kexes, nkeys, skip, fmt in chunk:
+        servers = [rate_server('normal', list(kexes), nkeys) for _ in range(2)]
+        opts = ['-n'] + (['--skip-rate-test'] if skip else []) + (['-j'] if fmt == 'json' else [])
+        res, outs = H.audit_sequence(servers, opts=opts)
+        st.execution(res.world, outcome=('multi', skip, len(res.world.conns)), root=('multi', kexes, nkeys, skip, fmt), nontrivial=('multi', kexes, nkeys, skip, fmt))
+        d = {'kex': list(kexes), 'host_keys': nkeys, 'skip_rate_test': skip, 'fmt': fmt, 'status': res.status}
+        if res.hang or res.exc:
+            st.violation('multi-target:hang-or-exception', dict(d, hang=res.hang, exc=res.exc))
+            continue
+        for i, srv in enumerate(servers):
+            probed = len(set(t for t in srv.key if t in HK.HOST_KEY_TYPES))
+            gex = len(set(k for k in srv.kex if k in P.GEX_NAMES))
+            dh = any(k.startswith(('diffie-hellman', 'ecdh', 'curve25519', 'sntrup')) for k in srv.kex)
+            cap = 1 + probed + 9 * gex + (0 if skip or not dh else 38 + 3 + 20)
+            n = len(srv.records)
+            if n > cap:
+                st.violation('multi-target:too-many-connections:%s' % ('rate-check-skipped' if skip else 'rate-check-on'), dict(d, target=i, connections=n, bound=cap))
+        leaked = [s.fd for s in res.world.sockets if not s.closed]
+        if leaked:
+            gc.collect()
+            leaked = [s.fd for s in res.world.sockets if not s.closed]
+        if leaked:
+            st.violation('multi-target:socket-left-open', dict(d, fds=leaked[:5]))
+    st.sample({'multi_target': [list(chunk[0][0]), chunk[0][1]], 'skip_rate_test': chunk[0][2]}, cap=3)
+
+
 def work_degenerate(chunk, st):
     # degenerate group-exchange groups handed to the host-key probe: the probe fails, the next connection must start afresh
     for _t, p, g in chunk:
@@ -226,6 +255,9 @@ def run(tier, seed):
             for latency in ((0.01,) if tier == 'quick' else (0.01, 0.05)):
                 rate_tasks.append((pat, ('curve25519-sha256',), 1, 'standard', latency))
     par.pmap(work_rate, rate_tasks, stats=st)
+    mt = [(k, n, skip, f) for k in (('curve25519-sha256',), ('diffie-hellman-group14-sha256', 'diffie-hellman-group-exchange-sha256')) for n in (1, 3)
+          for skip in (True, False) for f in ('text', 'json')]
+    par.pmap(work_multi_skip, mt, stats=st, chunk=2)
     from props import c09
     par.pmap(work_degenerate, c09.degenerate_gex_tasks(), stats=st, procs=1)
     from props import zoo
@@ -242,7 +274,7 @@ def run(tier, seed):
         rule='connection-log monitor over: (a) the C09 fault space (every archetype, %s faults, with the rate check skipped; message-level close/stall/'
              'reset/refuse faults again with the rate check on for B, C, D1); (b) rate-phase behaviours %s (and every repeating pattern of 2-3 different '
              'per-connection answers over {banner, close, MaxStartups, refuse, silent}) x 3 kex sets x {1,3} host keys x {standard, '
-             '-P, -M, --skip-rate-test} x select latencies; (c) ordinary option sets never produce a flood pattern; (d) the cooperative peers of props/zoo.py (every host-key type, certificate, GEX policy, SSH-1). Bounds: connections <= initial + '
+             '-P, -M, --skip-rate-test} x select latencies; (c) ordinary option sets never produce a flood pattern; (d) two targets in one -T invocation with the rate check skipped and on; (e) degenerate group-exchange groups; (f) the cooperative peers of props/zoo.py (every host-key type, certificate, GEX policy, SSH-1). Bounds: connections <= initial + '
              'probed host-key types + 9 per GEX algorithm (+ 38 completed, 3 concurrent for the rate check; 0 when skipped or no DH kex), key-exchange '
              'requests only on probe connections and one exchange per connection, every socket closed at exit' % (
                  'message-level' if tier == 'quick' else 'all (truncation every 2nd byte)', RATE_BEHAVIOURS),
